@@ -178,7 +178,7 @@ class BaseLoss(object):
         # so we first check the type
         self._observeT = t.copy()
         # and insert the initial value
-        self._t = np.insert(t, 0, t0)
+        self._t = np.append(t0, t)
         # and length
         self._numTime = len(self._t)
 
